@@ -107,3 +107,9 @@ claim("C09",
       "Decides that the hourly rollover swaps and persists inside one hold of the unit write lock, that exactly the swapped-out unit's serialisation is persisted unmodified under its own id without reading anything back, that an update adds once, under the lock, after validation bounded the result code, that adding increments the total and exactly the entry's result slot by one on every path, that a clean close persists the current unit and start-up reloads and deserialises the unit of the hour it starts in, and that the reported window is assembled from the database and the live unit on every read. "
       "Hour/window arithmetic, many-hour gaps and series/total relations are arithmetic over runtime values and not decided.",
       "DESIGN.md §5 C09")
+
+claim("C20",
+      "loop-variant recognition on natural loops (range, counted, budget counter in phi or spilled cell, decremented field) + CFG edge guards for seek result classes (static analysis)",
+      "Decides termination of every loop of the file reader and the multi-file reader by a syntactic ranking argument, and the mapping of seek outcomes: the probe validator yields too-early / not-found / too-late / ok exactly on its index conditions, a probe is used only after validation, the reader is positioned only on an exact timestamp match, and the multi-file seek goes to the older file on too-early, to the start of the newest file only on too-late, fails on not-found and makes the file current on success. "
+      "That reverse reading returns every line exactly once and that the position after a seek is right are arithmetic over runtime offsets and buffer boundaries and are not decided.",
+      "DESIGN.md §5 C20")
